@@ -83,6 +83,8 @@ class Explorer:
         self.first_choice = {}
         self.modular_memo_seed = {}
         self.modular_memo = {}
+        self.cell_reads_seed = []
+        self.cell_reads = []
         self.branch_rlimit = 4000000
         self.base_pc = []
         self.prefix = ''
@@ -109,6 +111,7 @@ class Explorer:
         self.pipe_registry = list(self.pipe_registry_seed)
         self.first_choice = dict(self.first_choice_seed)
         self.modular_memo = dict(self.modular_memo_seed)
+        self.cell_reads = list(self.cell_reads_seed)
         self.notes = []
 
     def fresh_name(self, base):
